@@ -940,6 +940,19 @@ class Engine:
         finally:
             self.spec_mode = saved
 
+    def spec_truth(self, node, fr):
+        """truth value of a condition in specification mode.  `a and b` / `a or b` whose operands are not all booleans (python's
+        value semantics: `flag and optional_number and x > 1`) are only asked for their TRUTH here: truth(a and b) = truth(a) and
+        truth(b) - no value-level if-then-else between operands of different sorts is built"""
+        if isinstance(node, ast.BoolOp):
+            vals = [self.eval(v, fr) for v in node.values]
+            if not all(isinstance(v, SV) and v.sort == BOOL for v in vals):
+                ts = [self.truth(v) for v in vals]
+                return bm.and_(*ts) if isinstance(node.op, ast.And) else bm.or_(*ts)
+        return self.truth(self.eval(node, fr))
+
+    under_binder = False
+
     def exec_spec_body(self, body, fr):
         """pure spec function: sequence of assignments, if/return; returns value (ite merged)"""
         for i, st in enumerate(body):
@@ -950,7 +963,7 @@ class Engine:
             elif isinstance(st, ast.Return):
                 return self.eval(st.value, fr)
             elif isinstance(st, ast.If):
-                c = self.truth(self.eval(st.test, fr))
+                c = self.spec_truth(st.test, fr)
                 rest = body[i + 1 :]
                 d = self.decide(c)
                 if d is not None:
@@ -1005,6 +1018,13 @@ class Engine:
     def call_function(self, module, cls, node, args, kwargs, line, qual):
         """modular call: contract if there is one, else inline if allowed"""
         c = self.spec.contract_for(qual)
+        # contract option callee_variants={"file::Class.method": "variant"} of the function under verification: calls to the named
+        # callee are represented by its contract instance "file::Class.method#variant" (a second, separately VERIFIED contract of the
+        # same function) instead of the base instance - lets one property observe a callee through ghost code without touching the
+        # instance other properties use
+        cv = (getattr(self, "cur_contract_opts", None) or {}).get("callee_variants") or {}
+        if qual in cv and self.spec.contract_for("%s#%s" % (qual, cv[qual])) is not None:
+            c = self.spec.contract_for("%s#%s" % (qual, cv[qual]))
         if c is not None and not (self.cur_target == qual and self.depth == 0) and not c.opts.get("inline_at_calls"):
             return self.call_contract(c, module, cls, node, args, kwargs, line)
         if c is not None and c.opts.get("inline_at_calls") and not (self.cur_target == qual and self.depth == 0):
@@ -1036,6 +1056,11 @@ class Engine:
             return PyVal("genfunc_call", module=module, node=node, frame=fr, qual=qual)
         self.depth += 1
         try:
+            if self.spec_mode and self.under_binder and any(isinstance(n, ast.If) for n in ast.walk(node)):
+                # a callee with control flow evaluated under a bound variable (the condition / element of a comprehension over a
+                # symbolic list): paths cannot be forked there - the body is evaluated as a pure function (assignments, if / return,
+                # merged with if-then-else); anything else in the body is an EngineLimit
+                return self.exec_spec_body(node.body, fr)
             self.exec_block(node.body, fr)
         except ReturnEx as r:
             return r.value
